@@ -4,46 +4,8 @@
 From Coq Require Import NArith ZArith List Bool Lia.
 Require Import ZifyBool.
 Import ListNotations.
-Require Import UV.Gen.Consts UV.Mcount.Model UV.Mcount.Forest UV.Mcount.PlainStep UV.Mcount.PlainProofs.
+Require Import UV.Gen.Consts UV.Mcount.Model UV.Mcount.Forest UV.Mcount.PlainStep UV.Mcount.PlainProofs UV.Mcount.SelectSpec.
 Local Open Scope N_scope.
-
-(* ---------------------------------------------------------------- the specification *)
-Record sctx := { dead : bool;        (* inside a -N function *)
-                 scope : bool;       (* inside a -F function, or no -F option given *)
-                 budget : N }.       (* nesting levels still shown *)
-
-Definition ftrig (f : option bool) : trig :=
-  {| t_filter := f; t_depth := None; t_time := None; t_size := None;
-     t_trace_on := false; t_trace_off := false; t_trace := false; t_caller := false |}.
-(* option sets of this stage: -F / -N per function (table [flt]), -D gd *)
-Definition fcfg (flt : N -> option bool) (fm : bool) (gd ms : N) (sh : shape) : cfg :=
-  {| trig_of := fun a => ftrig (flt a); fmode_in := fm; has_caller := false; gdepth := gd; threshold := 0;
-     max_stack := ms; sym_size := fun _ => 0; shp := sh |}.
-
-Definition E_ (a t d : N) : rec := {| r_time := t; r_type := ENTRY; r_depth := d; r_addr := a |}.
-Definition X_ (a t d : N) : rec := {| r_time := t; r_type := EXIT; r_depth := d; r_addr := a |}.
-
-(* documented meaning (doc/uftrace-record.md, FILTERS): -N f hides f and everything it calls; with -F,
-   only the -F functions and what they call are shown; -D limits the nesting shown, counted from the
-   outermost shown function and counted afresh inside a -F function. *)
-Fixpoint sel (flt : N -> option bool) (gd : N) (x : sctx) (d : N) (k : call) : list rec :=
-  match k with
-  | Call a t0 t1 kids =>
-      if dead x then []
-      else match flt a with
-           | Some false => []
-           | Some true =>
-               E_ a t0 d :: flat_map (sel flt gd {| dead := false; scope := true; budget := gd - 1 |} (d + 1)) kids
-               ++ [X_ a t1 d]
-           | None =>
-               if scope x && (0 <? budget x)
-               then E_ a t0 d :: flat_map (sel flt gd {| dead := false; scope := scope x; budget := budget x - 1 |}
-                                               (d + 1)) kids ++ [X_ a t1 d]
-               else flat_map (sel flt gd x d) kids
-           end
-  end.
-
-Definition x0 (fm : bool) (gd : N) : sctx := {| dead := false; scope := negb fm; budget := gd |}.
 
 (* ---------------------------------------------------------------- one-step lemmas *)
 Definition gfl (sh : shape) (nr flt ntr : bool) : flags :=
@@ -339,7 +301,7 @@ Section filt.
     destruct HT as (Ht01 & Ht1 & Hpos & _). destruct HP as (Hlt & _).
     cbn [height] in Hh. fold (heights kids) in Hh.
     assert (Hi : idx s < ms) by lia.
-    destruct HR as (Hi0 & Ho0 & Hdead & Hlive).
+    assert (HRel := HR). destruct HR as (Hi0 & Ho0 & Hdead & Hlive).
     cbn [flat]. unfold exec. cbn [fold_left dstep]. rewrite fold_left_app. cbn [fold_left].
     assert (Hsh : sh = PG \/ sh = CYG) by (destruct sh; auto).
     (* a rejected entry: run the kids in the same context, nothing recorded for this call *)
@@ -351,16 +313,22 @@ Section filt.
     { intros Hrej Rk ->.
       pose proof (enter_reject s i o dp a t0 Hfc Hen Hi Ho0 Hrej) as ER.
       destruct Hsh as [Es|Es]; rewrite Es in ER; destruct ER as [Een Hhk]; rewrite Een, Hhk.
-      - destruct (RK {| fc := fc s; enabled := enabled s; cached := cached s; stack := stack s; ridx := ridx s;
-                        out := out s; warned := false |} (false :: hk) i o dp x d Hfc) as (s2 & E2 & A2);
-          try assumption; [repeat split; assumption| unfold idx in *; cbn [stack]; lia |].
+      - assert (Hix : idx {| fc := fc s; enabled := enabled s; cached := cached s; stack := stack s; ridx := ridx s;
+                             out := out s; warned := false |} + heights kids <= ms)
+          by (unfold idx in *; cbn [stack]; lia).
+        destruct (RK {| fc := fc s; enabled := enabled s; cached := cached s; stack := stack s; ridx := ridx s;
+                        out := out s; warned := false |} (false :: hk) i o dp x d Hfc HRel Hen Hr Hix) as (s2 & E2 & A2).
         unfold exec in E2. rewrite E2. cbn [dstep]. exists s2. split; [reflexivity|].
         destruct A2 as (F2 & En2 & C2 & R2 & S2 & O2). cbn [stack out cached fc] in *.
         unfold afterg. auto 10.
-      - destruct (RK {| fc := fc s; enabled := enabled s; cached := cached s;
+      - assert (Hix : idx {| fc := fc s; enabled := enabled s; cached := cached s;
+                             stack := gframe CYG true false false a 0 (ridx s) (fstate i o dp) :: stack s;
+                             ridx := ridx s; out := out s; warned := false |} + heights kids <= ms)
+          by (unfold idx in *; cbn [stack length]; lia).
+        destruct (RK {| fc := fc s; enabled := enabled s; cached := cached s;
                         stack := gframe CYG true false false a 0 (ridx s) (fstate i o dp) :: stack s;
-                        ridx := ridx s; out := out s; warned := false |} (true :: hk) i o dp x d Hfc)
-          as (s2 & E2 & A2); try assumption; [repeat split; assumption| unfold idx in *; cbn [stack length]; lia |].
+                        ridx := ridx s; out := out s; warned := false |} (true :: hk) i o dp x d Hfc HRel Hen Hr Hix)
+          as (s2 & E2 & A2).
         unfold exec in E2. rewrite E2. cbn [dstep].
         destruct A2 as (F2 & En2 & C2 & R2 & S2 & O2). cbn [stack out cached fc] in *.
         (* the NORECORD frame is skipped by every flush: it is still on top, unchanged *)
@@ -374,8 +342,11 @@ Section filt.
         { rewrite O2. destruct (is_nil _); [reflexivity|].
           cbn [flush_anc gframe f_flags gfl written]. destruct (flush_anc (stack s)) as [r' rc'].
           unfold skip. cbn [f_flags gfl norecord orb snd]. reflexivity. }
-        rewrite Es in *. rewrite F2, Hfc in *.
-        rewrite (leave_norec s2 false false a 0 (ridx s) i o dp t1 _ i o dp S2' F2).
+        assert (F2' : fc s2 = fstate i o dp) by congruence.
+        assert (S2'' : stack s2 = gframe sh true false false a 0 (ridx s) (fstate i o dp) ::
+                                  (if is_nil (flat_map (sel flt gd x d) kids) then stack s else fst (flush_anc (stack s))))
+          by (rewrite Es; exact S2').
+        rewrite (leave_norec s2 false false a 0 (ridx s) i o dp t1 _ i o dp S2'' F2').
         eexists. split; [reflexivity|].
         unfold afterg. cbn [fc enabled cached ridx stack out]. rewrite Hfc.
         repeat split; try assumption; congruence. }
@@ -396,7 +367,7 @@ Section filt.
                       ridx := ridx s + 1; out := out s; warned := false |}).
         destruct (RK s1 (true :: hk) (i + 1)%Z 0%Z 1 {| dead := false; scope := true; budget := gd - 1 |} (d + 1))
           as (s2 & E2 & A2); try reflexivity.
-        { repeat split; cbn [dead scope budget]; try lia; try discriminate; intros; auto; try lia. right; lia. }
+        { unfold Rel. cbn [dead scope budget]. intuition (try lia; try discriminate; try congruence). }
         { subst s1. cbn [ridx]. lia. }
         { subst s1. unfold idx in *. cbn [stack length]. lia. }
         unfold exec in E2. rewrite E2. cbn [dstep].
@@ -425,7 +396,7 @@ Section filt.
                       ridx := ridx s; out := out s; warned := false |}).
         destruct (RK s1 (true :: hk) i 1%Z 1 {| dead := true; scope := false; budget := 0 |} d)
           as (s2 & E2 & A2); try reflexivity; try assumption.
-        { repeat split; cbn [dead]; try lia; try discriminate; intros; auto; lia. }
+        { unfold Rel. cbn [dead scope budget]. intuition (try lia; try discriminate; try congruence). }
         { subst s1. unfold idx in *. cbn [stack length]. lia. }
         unfold exec in E2. rewrite E2. cbn [dstep].
         rewrite sel_dead_list in A2 by reflexivity.
@@ -448,8 +419,7 @@ Section filt.
                         ridx := ridx s + 1; out := out s; warned := false |}).
           destruct (RK s1 (true :: hk) i 0%Z (dp + 1) {| dead := false; scope := scope x; budget := budget x - 1 |} (d + 1))
             as (s2 & E2 & A2); try reflexivity.
-          { repeat split; cbn [dead scope budget]; try lia; try discriminate; intros; try (apply Hsc; assumption); try lia.
-            apply Hsc. assumption. }
+          { unfold Rel. cbn [dead scope budget]. intuition (try lia; try discriminate; try congruence). }
           { subst s1. cbn [ridx]. lia. }
           { subst s1. unfold idx in *. cbn [stack length]. lia. }
           unfold exec in E2. rewrite E2. cbn [dstep].
@@ -484,16 +454,19 @@ Section filt.
     out (fst (exec c (flat_forest f) (init, []))) = flat_map (sel flt gd (x0 fm gd) 0) f.
   Proof.
     intros f HT HP Hh.
-    destruct (run_kids_sel f) with (s := init) (hk := @nil bool) (i := 0%Z) (o := 0%Z) (dp := 0) (x := x0 fm gd) (d := 0)
-      as (s' & E & A); try reflexivity; try assumption.
-    - clear -Hgd. induction f as [|k r IH]; constructor; [|exact IH].
-      intros Tk Pk s hk i o dp x d. apply run_call_sel; assumption.
-    - unfold Rel, x0. cbn [dead scope budget]. repeat split; try lia; try discriminate; intros.
-      + destruct fm; cbn in *; [discriminate|left; reflexivity].
-      + destruct H0 as [->|]; [reflexivity|lia].
-    - cbn. lia.
-    - unfold flat_forest. rewrite E. cbn [fst].
-      destruct A as (_ & _ & _ & _ & _ & O). rewrite O. cbn [init out stack flush_anc snd app].
-      destruct (is_nil _); reflexivity.
+    assert (HF : Forall (fun k => timed k -> positive k -> forall s hk i o dp x d,
+                     fc s = fstate i o dp -> Rel i o dp x -> enabled s = true -> ridx s = d ->
+                     idx s + height k <= ms ->
+                     exists s', exec c (flat k) (s, hk) = (s', hk) /\ afterg s s' d (sel flt gd x d k)) f).
+    { clear -Hgd. induction f as [|k r IH]; constructor; [|exact IH].
+      intros Tk Pk s hk i o dp x d. apply run_call_sel; assumption. }
+    assert (HR : Rel 0 0 0 (x0 fm gd)).
+    { unfold Rel, x0. cbn [dead scope budget].
+      destruct fm; cbn [negb]; intuition (try lia; try discriminate; try congruence). }
+    assert (Hix : idx init + heights f <= ms) by (cbn; lia).
+    destruct (run_kids_sel f HF HT HP init [] 0%Z 0%Z 0 (x0 fm gd) 0 eq_refl HR eq_refl eq_refl Hix) as (s' & E & A).
+    unfold flat_forest. rewrite E. cbn [fst].
+    destruct A as (_ & _ & _ & _ & _ & O). rewrite O. cbn [init out stack flush_anc snd app].
+    destruct (is_nil _); reflexivity.
   Qed.
 End filt.
